@@ -189,7 +189,7 @@ def coq_eval(prop_id, text, name="cases", timeout=1800):
     p = os.path.join(wd, name + ".v")
     with open(p, "w") as f:
         f.write(text)
-    rc, out, err = sh(["timeout", str(timeout), "coqc", "-R", COQ, "Verif", p], cwd=wd, timeout=timeout + 60)
+    rc, out, err = sh(["timeout", str(timeout), "coqc", "-noglob", "-R", COQ, "Verif", p], cwd=wd, timeout=timeout + 60)
     return rc, out, err
 
 
